@@ -2,6 +2,7 @@ package main
 
 import (
 	"encoding/json"
+	"flag"
 	"fmt"
 	"log/slog"
 	"math"
@@ -82,6 +83,15 @@ func (p propRef) setBase(v reflect.Value) {
 }
 func (p propRef) overwrite(v reflect.Value) {
 	p.ptr.MethodByName("Overwrite").Call([]reflect.Value{v})
+}
+
+// overrideViaFlag gives one command-line argument to the real flag layer (a fresh flag set, config.OverrideFromFlags).
+func overrideViaFlag(cfg *config.Config, arg string) {
+	flag.CommandLine = flag.NewFlagSet("reservoir", flag.PanicOnError)
+	saved := os.Args
+	os.Args = []string{"reservoir", arg}
+	config.OverrideFromFlags(cfg)
+	os.Args = saved
 }
 
 // fval prints a property value as a Gallina fval.
@@ -518,14 +528,31 @@ func runSQ(r *emit.Rand, cfgPath string) (string, map[string]any, bool) {
 			path = "cache.memory.memory_budget_percent"
 			gen = func(r *emit.Rand) int64 { return int64(r.Intn(101)) }
 		}
+		if path == "logging.max_backups" {
+			// 3 is the declared default of --log-file-max-backups: giving it is still an override
+			plain := gen
+			gen = func(r *emit.Rand) int64 {
+				if r.Chance(30) {
+					return 3
+				}
+				return plain(r)
+			}
+		}
+		viaFlag := path == "logging.max_backups"
 		p.OnChange(func(v int) { record(int64(v)) })
 		h := p.VerifEvent().VerifLast()
 		sp = sqProp{path: path, kind: "KInt", gen: gen,
-			read:      func() int64 { return int64(p.Read()) },
-			overwrite: func(v int64) { p.Overwrite(int(v)) },
-			stage:     func(v int64) { p.Stage(int(v)) },
-			commit:    p.CommitStaged,
-			doc:       func(r *emit.Rand, v int64) any { return v },
+			read: func() int64 { return int64(p.Read()) },
+			overwrite: func(v int64) {
+				if viaFlag && v%2 == 1 { // odd values go through the real command-line layer
+					overrideViaFlag(cfg, fmt.Sprintf("--log-file-max-backups=%d", v))
+				} else {
+					p.Overwrite(int(v))
+				}
+			},
+			stage:  func(v int64) { p.Stage(int(v)) },
+			commit: p.CommitStaged,
+			doc:    func(r *emit.Rand, v int64) any { return v },
 			idle: func() bool {
 				_, running, pending := p.VerifEvent().VerifSubState(h)
 				return !running && pending == 0
